@@ -1040,6 +1040,8 @@ def check(ctx):
     # make another one skip its reload (= C12.GLOBALS)
     from . import c12 as _c12
     _region = dict(ctx.prog.region(ENF + '.load_rules', ENF + '.enforce'))
+    ctx.borrow_soft('C10.STALE', _c20.check_cache_order,
+                    only=['C20.CACHE-ORDER'])
     ctx.borrow('C10.STALE', _c12.check_globals, _region,
                only=['C12.GLOBALS'])
     # C10.FIND: a policy file created after start-up is found (= C09.FIND)
